@@ -366,6 +366,7 @@ PROPS["C15"] = {
             {"run": "^TestRoundTrip$", "checks": 320, "shards": 8},
             {"run": "^TestWireRoundTrip$", "checks": 200, "shards": 2},
             {"run": "^TestDuplicateParty$", "shards": 1},
+            {"run": "^TestWrongSizeModulus$", "shards": 1},
         ],
         "thorough": [
             {"fuzz": "FuzzRestore", "fuzztime": "180s", "workers": 8, "timeout": 600},
@@ -373,6 +374,7 @@ PROPS["C15"] = {
             {"run": "^TestRoundTrip$", "checks": 12000, "shards": 12},
             {"run": "^TestWireRoundTrip$", "checks": 8000, "shards": 4},
             {"run": "^TestDuplicateParty$", "shards": 1},
+            {"run": "^TestWrongSizeModulus$", "shards": 1},
         ],
     },
 }
@@ -426,6 +428,7 @@ PROPS["C04"] = {
             {"run": "^TestWireCMP$", "checks": 48, "shards": 12, "timeout": 2400},
             {"run": "^TestDeviations$", "checks": 16, "shards": 8, "timeout": 2400},
             {"run": "^TestCtDeviations$", "shards": 10, "timeout": 2400},
+            {"run": "^TestSigmaShare$", "shards": 16, "timeout": 2400},
             {"run": "^TestEquivocationCheap$", "checks": 600, "shards": 2},
             {"run": "^TestEquivocationCMP$", "checks": 12, "shards": 12, "timeout": 2400},
         ],
@@ -435,6 +438,7 @@ PROPS["C04"] = {
             {"run": "^TestWireCMP$", "checks": 1600, "shards": 16, "timeout": 9000},
             {"run": "^TestDeviations$", "checks": 640, "shards": 16, "timeout": 9000},
             {"run": "^TestCtDeviations$", "shards": 16, "timeout": 9000},
+            {"run": "^TestSigmaShare$", "shards": 16, "timeout": 9000},
             {"run": "^TestEquivocationCheap$", "checks": 30000, "shards": 4},
             {"run": "^TestEquivocationCMP$", "checks": 320, "shards": 16, "timeout": 9000},
         ],
@@ -500,11 +504,13 @@ PROPS["C05"] = {
             {"run": "^TestCMP$", "checks": 60, "shards": 12, "timeout": 2400},
             {"run": "^TestSweepAbort$", "shards": 16, "timeout": 2400},
             {"run": "^TestSweepPrefix$", "shards": 4, "timeout": 2400},
+            {"run": "^TestSweepHeader$", "shards": 16, "timeout": 2400},
         ],
         "thorough": [
             {"fuzz": "FuzzAccept", "fuzztime": "240s", "workers": 8, "timeout": 800},
             {"run": "^TestSweep$", "shards": 16, "timeout": 9000},
             {"run": "^TestSweepPrefix$", "shards": 4, "timeout": 9000},
+            {"run": "^TestSweepHeader$", "shards": 16, "timeout": 9000},
             {"run": "^TestCheap$", "checks": 200000, "shards": 6},
             {"run": "^TestDoerner$", "checks": 40000, "shards": 4},
             {"run": "^TestCMP$", "checks": 2400, "shards": 16, "timeout": 9000},
@@ -555,6 +561,7 @@ PROPS["C09"] = {
     "assumptions": ["authenticated channels for part (c)"],
     "tiers": {
         "quick": [
+            {"run": "^TestCommitContext$", "checks": 3000, "shards": 1},
             {"run": "^TestTags$", "checks": 2400, "shards": 12},
             {"run": "^TestReplayCheap$", "checks": 600, "shards": 4},
             {"run": "^TestReplayCMP$", "checks": 4, "shards": 4, "timeout": 2400},
@@ -562,6 +569,7 @@ PROPS["C09"] = {
             {"run": "^TestImpersonateCMP$", "checks": 6, "shards": 6, "timeout": 2400},
         ],
         "thorough": [
+            {"run": "^TestCommitContext$", "checks": 200000, "shards": 2},
             {"run": "^TestTags$", "checks": 60000, "shards": 12},
             {"run": "^TestReplayCheap$", "checks": 30000, "shards": 6},
             {"run": "^TestReplayCMP$", "checks": 160, "shards": 16, "timeout": 9000},
